@@ -23,18 +23,23 @@ def run(ctx):
     lib = ctx.facts.lib
     if not res.anchor(lib.body(FN_EXEC) is not None, FN_EXEC):
         return res
+    from ..owners import for_crate
+    own = for_crate(lib)
     callers = sorted(lib.callers.get(FN_EXEC, ()))
+    caller_owners = set()
     for c in callers:
         key = "caller:" + c
         b = lib.body(c)
         where = b.where([x.line for x in b.calls if x.callee == FN_EXEC][0]) if b and any(x.callee == FN_EXEC for x in b.calls) else ""
-        if c in PERMITTED:
-            res.ok(key, where, PERMITTED[c])
+        os_ = own.of(c)
+        caller_owners |= set(os_)
+        if os_ and all(o in PERMITTED for o in os_):
+            res.ok(key, where, "; ".join(PERMITTED[o] for o in os_))
         else:
             res.bad(key, "%s calls Function::exec with its own interpreter: whatever the callee declares (`x := ..`) is written "
                          "into the caller's scope, and the callee cannot see its own name; use exec_with_args" % c, where)
     for p in PERMITTED:
-        res.anchor(p in callers, "%s calls Function::exec" % p)
+        res.anchor(p in caller_owners, "%s calls Function::exec" % p)
     # exec_with_args: fresh interpreter, inserts, then exec on that same local
     b = lib.body(EXEC_WITH_ARGS)
     if res.anchor(b is not None, EXEC_WITH_ARGS):
@@ -62,7 +67,7 @@ def run(ctx):
         else:
             res.bad("fresh:" + EXEC_WITH_ARGS, "exec_with_args must create exactly one fresh interpreter and run the body once "
                                                "(found %d / %d)" % (len(fresh), len(ex)), b.where())
-        ins = [c for c in b.calls if c.callee == INSERT]
+        ins = [c for hb in own.cluster(EXEC_WITH_ARGS) for c in hb.calls if c.callee == INSERT]
         if len(ins) == 2:
             res.ok("binds:" + EXEC_WITH_ARGS, b.where(), "two insert sites: own name, parameters")
         else:
